@@ -266,3 +266,174 @@ Proof.
   cbv zeta. split; [reflexivity|]. split; [repeat constructor|]. split; [repeat constructor|]. split; [repeat constructor|].
   repeat split; vm_compute; reflexivity.
 Qed.
+
+(* ---- the matcher itself: re_rec, re_recmatch and regexec of regex.c (translated: GenCFuncs.F_re_rec, F_re_recmatch, F_regexec) ARE the
+   machine ReVM.rec, ReVM.re_recmatch and the start-position loop ReVM.re_loop of this file's theorems, coq/TrRegexRec.v --------------
+   C10_vm_sound / C10_vm_first / C10_sound / C10_leftmost_priority above speak about the hand-written machine `rec d` (depth counter, loop
+   fuel, fork = recursive call on the first target, then the second) and `re_loop`.  The three theorems below tie that machine to the C
+   TEXT: tools/c2clite.py prints clang's AST of the three functions as CLite terms; for EVERY program in memory, EVERY line, state, flag
+   word and depth, running the term gives what the model says.
+   Memory layout (as c2clite.py lays structs out, one value per cell): struct regex = block bre of 3 cells (p, n, flg); the array re->p =
+   block bp, 6 cells per struct rinst (ra.ra, ra.s, ri, a1, a2, mark), atom strings NUL-terminated in blocks of their own
+   (TrRegexRec.prog_at); struct rstate = block br of 133 cells (s, o, mark[128], pc, flg, dep) = TrRegexRec.rs_cells bl p marks pc flg dep;
+   the line = a C string in block bl (str_at).  RI_FORK's `struct rstate base = *rs` is a malloc'd block of 133 cells + memcpy, `*rs = base`
+   the memcpy back; the term never frees the saved blocks, so the memory after a call is the initial one with the state block replaced
+   and the saved states appended (`upd m br R' ++ extra`, TrRegexRec.post).
+   Results are read as: Found -> 0 with the model's final state (position, marks) in the state block; Fail -> 1.  The model's other two
+   results (Abort = loop fuel |P|+1 exhausted, OobO = an atom read outside the line) are excluded by hypothesis: C11_terminates /
+   C11_atom_in_bounds show they do not occur for programs of regcomp.  The N component (number of depth cuts) is NOT observed: c2clite
+   parses regex.c WITHOUT -DNEATVI_VERIF, so the term has no re_verif_depthcut counter; `rs->dep >= NDEPT -> return 1` is in the term and
+   corresponds to `rec 0 = (Fail, 1)` (TrRegexRec.rec_spec_0).
+   Call depth of the CLite interpreter: 7 + model depth (six levels below re_rec for ratom_match -> brk_match -> brk_match -> uc_dec ->
+   uc_len); loop fuel: more than |P| (the model's own bound per activation), than the line, than every atom string + 13, cls_fuel. *)
+From NV Require CLiteTac TrRegexRec.
+Theorem C10_tr_re_rec : forall bre bp br bl P cflg flg (line : bytes) fuel,
+  br <> bre -> br <> bp -> br <> bl -> length GenCFuncs.cglobals <= br -> CLiteProps.bytes_lt256 line ->
+  (-2147483648 <= flg <= 2147483647)%Z -> length line < fuel -> TrRegexBrk.cls_fuel <= fuel ->
+  (Z.of_nat (length line) < 2147483647)%Z -> (Z.of_nat (length P) < 2147483647)%Z -> TrRegexRec.prog_closed P -> length P < fuel ->
+  forall dm e, dm <= 256 ->
+  forall m pc p marks o c,
+  TrRegexRec.frame bre bp br bl P cflg line fuel m -> pc < length P ->
+  nth_error m br = Some (TrRegexRec.rs_cells bl p marks (Z.of_nat pc) flg (256 - Z.of_nat dm)%Z) -> length marks = 128 -> p <= length line ->
+  rec st (atom_step flg line) mark_step P dm pc (p, marks) = (o, c) ->
+  match o with Found _ _ | Fail => True | _ => False end ->
+  exists m', CLite.callf GenCFuncs.cprog fuel (S (S (S (S (S (S (S (dm + e))))))) ) GenCFuncs.F_re_rec [CLite.VPtr bre 0; CLite.VPtr br 0] m
+             = CLite.Ok (CLite.VInt (match o with Found _ _ => 0 | _ => 1 end)%Z, m') /\
+    exists extra p' marks' pc' dep', m' = CLiteProps.upd m br (TrRegexRec.rs_cells bl p' marks' pc' flg dep') ++ extra /\ length marks' = 128 /\
+      match o with Found _ s => s = (p', marks') | _ => True end.
+Proof. exact TrRegexRec.tr_re_rec. Qed.
+Print Assumptions C10_tr_re_rec.
+
+(* re_recmatch: pc and dep reset, the marks below 2 * nsub set to -1 (the others keep what the previous start position left: they do not
+   influence the run and are not read -- TrRegexRec.rec_agree), re_rec at depth NDEPT, on success psub[i] = (mark[2i], mark[2i+1]) or
+   (-1, -1) beyond the mark array: the block of psub holds psub_of of the model's final marks *)
+Theorem C10_tr_re_recmatch : forall bre bp br bl bps P cflg flg (line : bytes) fuel,
+  br <> bre -> br <> bp -> br <> bl -> length GenCFuncs.cglobals <= br -> CLiteProps.bytes_lt256 line ->
+  (-2147483648 <= flg <= 2147483647)%Z -> length line < fuel -> TrRegexBrk.cls_fuel <= fuel ->
+  (Z.of_nat (length line) < 2147483647)%Z -> (Z.of_nat (length P) < 2147483647)%Z -> TrRegexRec.prog_closed P -> length P < fuel ->
+  bps <> br -> 0 < length P -> 128 < fuel ->
+  forall m p marks pc0 dep0 nsub pcells e o c,
+  TrRegexRec.frame bre bp br bl P cflg line fuel m -> nth_error m br = Some (TrRegexRec.rs_cells bl p marks pc0 flg dep0) -> length marks = 128 ->
+  p <= length line -> nth_error m bps = Some pcells -> (0 <= nsub)%Z -> (nsub * 2 <= 2147483647)%Z ->
+  2 * Z.to_nat nsub <= length pcells -> Z.to_nat nsub < fuel ->
+  re_recmatch 256 P flg line p = (o, c) -> match o with Found _ _ | Fail => True | _ => False end ->
+  exists m', CLite.callf GenCFuncs.cprog fuel (S (S (S (S (S (S (S (S (256 + e))))))))) GenCFuncs.F_re_recmatch
+               [CLite.VPtr bre 0; CLite.VPtr br 0; CLite.VInt nsub; CLite.VPtr bps 0] m
+             = CLite.Ok (CLite.VInt (match o with Found _ _ => 0 | _ => 1 end)%Z, m') /\
+  exists extra p' M' pc' dep', length M' = 128 /\
+    match o with
+    | Found _ r => p' = fst r /\ TrRegexRec.agree (Nat.min 128 (2 * Z.to_nat nsub)) (snd r) M' /\
+        m' = CLiteProps.upd (CLiteProps.upd m br (TrRegexRec.rs_cells bl p' M' pc' flg dep') ++ extra) bps
+               (CLiteTac.tab_block (psub_of (snd r) (Z.to_nat nsub)) ++ skipn (2 * Z.to_nat nsub) pcells)
+    | _ => m' = CLiteProps.upd m br (TrRegexRec.rs_cells bl p' M' pc' flg dep') ++ extra
+    end.
+Proof. exact TrRegexRec.tr_re_recmatch. Qed.
+Print Assumptions C10_tr_re_recmatch.
+
+(* regexec: whenever the model's start-position loop answers (Ok x), the translated regexec returns 0 / 1 accordingly and, on a match,
+   has written psub_of (the model's final marks) into the caller's psub[] (nothing with REG_NOSUB); its local struct rstate (a malloc'd
+   block, memset 0, rs.flg = re->flg | flg, rs.o = s) and the states saved by the forks stay behind as garbage blocks *)
+Theorem C10_tr_regexec : forall bre bp bl bps bpreg P cflg eflg (line : bytes) fuel (m : CLite.mem) nsub pcells e x c,
+  let flg := Z.lor cflg eflg in
+  let ns := Z.to_nat (if negb (Z.land eflg 2 =? 0)%Z then 0%Z else nsub) in
+  nth_error m bpreg = Some [CLite.VPtr bre 0] ->
+  TrRegexRec.prog_at m (length m) fuel bre bp P cflg -> CLiteProps.str_at m bl line -> CLiteTac.globals_at m -> nth_error m bps = Some pcells ->
+  CLiteProps.bytes_lt256 line -> (-2147483648 <= flg <= 2147483647)%Z -> (-2147483648 <= cflg <= 2147483647)%Z ->
+  (-2147483648 <= eflg <= 2147483647)%Z ->
+  length line + 2 <= fuel -> TrRegexBrk.cls_fuel <= fuel -> (Z.of_nat (length line) < 2147483647)%Z -> (Z.of_nat (length P) < 2147483647)%Z ->
+  TrRegexRec.prog_closed P -> length P < fuel -> 0 < length P -> 128 < fuel ->
+  (0 <= nsub)%Z -> (nsub * 2 <= 2147483647)%Z -> 2 * Z.to_nat nsub <= length pcells -> Z.to_nat nsub < fuel ->
+  re_loop 256 P flg line (length line + 2) 0 0 = (Ok x, c) ->
+  exists m' blk extra,
+    CLite.callf GenCFuncs.cprog fuel (S (S (S (S (S (S (S (S (S (256 + e)))))))))) GenCFuncs.F_regexec
+      [CLite.VPtr bpreg 0; CLite.VPtr bl 0; CLite.VInt nsub; CLite.VPtr bps 0; CLite.VInt eflg] m
+    = CLite.Ok (CLite.VInt (match x with Some _ => 0 | None => 1 end)%Z, m') /\
+    m' = match x with
+         | Some r => CLiteProps.upd m bps (CLiteTac.tab_block (psub_of (snd r) ns) ++ skipn (2 * ns) pcells) ++ blk :: extra
+         | None => m ++ blk :: extra
+         end.
+Proof. exact TrRegexRec.tr_regexec. Qed.
+Print Assumptions C10_tr_regexec.
+
+(* the same for the model's regexec_d at the engine's depth, for a program with the static shape regcomp guarantees (C11_wf_prog) *)
+Theorem C10_tr_regexec_model : forall bre bp bl bps bpreg (p : prog) cflg eflg (line : bytes) fuel (m : CLite.mem) nsub pcells e res c,
+  nth_error m bpreg = Some [CLite.VPtr bre 0] ->
+  TrRegexRec.prog_at m (length m) fuel bre bp (code p) cflg -> CLiteProps.str_at m bl line -> CLiteTac.globals_at m -> nth_error m bps = Some pcells ->
+  CLiteProps.bytes_lt256 line -> (-2147483648 <= Z.lor cflg eflg <= 2147483647)%Z -> (-2147483648 <= cflg <= 2147483647)%Z ->
+  (-2147483648 <= eflg <= 2147483647)%Z ->
+  length line + 2 <= fuel -> TrRegexBrk.cls_fuel <= fuel -> (Z.of_nat (length line) < 2147483647)%Z -> (Z.of_nat (length (code p)) < 2147483647)%Z ->
+  prog_wf (code p) -> length (code p) < fuel -> 128 < fuel ->
+  (0 <= nsub)%Z -> (nsub * 2 <= 2147483647)%Z -> 2 * Z.to_nat nsub <= length pcells -> Z.to_nat nsub < fuel ->
+  Z.land eflg 2 = 0%Z ->
+  regexec_d 256 p cflg line (Z.to_nat nsub) eflg = (Ok res, c) ->
+  exists m' blk extra,
+    CLite.callf GenCFuncs.cprog fuel (S (S (S (S (S (S (S (S (S (256 + e)))))))))) GenCFuncs.F_regexec
+      [CLite.VPtr bpreg 0; CLite.VPtr bl 0; CLite.VInt nsub; CLite.VPtr bps 0; CLite.VInt eflg] m
+    = CLite.Ok (CLite.VInt (match res with Some _ => 0 | None => 1 end)%Z, m') /\
+    m' = match res with
+         | Some subs => CLiteProps.upd m bps (CLiteTac.tab_block subs ++ skipn (2 * Z.to_nat nsub) pcells) ++ blk :: extra
+         | None => m ++ blk :: extra
+         end.
+Proof. exact TrRegexRec.tr_regexec_model. Qed.
+Print Assumptions C10_tr_regexec_model.
+
+(* non-vacuity: the program of `a*b` (what the model's regcomp emits: MARK 0; FORK 2 4; 'a'; FORK 2 4; 'b'; MARK 1; MATCH) laid out in
+   memory behind the global blocks satisfies prog_at / frame, and the translated functions RUN on it (vm_compute of the CLite
+   interpreter): re_rec from pc 0 on "aab" takes the choices the model takes and leaves s = line + 3, marks 0 and 3, three saved states;
+   regexec finds (1, 4) in "xaab\n", nothing in "xaa"; too little call depth is the distinct error EFuel, a block that is too short for a
+   struct rstate is EOob *)
+Definition C10_rec_prog : list instr := [IMark 0; IFork 2 4; IAtom (AChr [97%N]); IFork 2 4; IAtom (AChr [98%N]); IMark 1; IMatch].
+Definition C10_ri (ra : Z) (s : CLite.val) (ri a1 a2 mk : Z) : list CLite.val :=
+  [CLite.VInt ra; s; CLite.VInt ri; CLite.VInt a1; CLite.VInt a2; CLite.VInt mk].
+(* behind the G global blocks: G "a", G+1 "b", G+2 the program array, G+3 struct regex, G+4 the regex_t cell, G+5 the line, G+6 psub[2],
+   G+7 a struct rstate at position 0 of the line with all marks -1 *)
+Definition C10_G : nat := length GenCFuncs.cglobals.
+Definition C10_rec_mem (line : list Z) : CLite.mem :=
+  GenCFuncs.cglobals ++
+  [CLite.cstr_block [97%Z]; CLite.cstr_block [98%Z];
+   C10_ri 0 (CLite.VInt 0) 109 0 0 0 ++ C10_ri 0 (CLite.VInt 0) 102 2 4 0 ++ C10_ri 0 (CLite.VPtr C10_G 0) 0 0 0 0 ++
+   C10_ri 0 (CLite.VInt 0) 102 2 4 0 ++ C10_ri 0 (CLite.VPtr (C10_G + 1) 0) 0 0 0 0 ++ C10_ri 0 (CLite.VInt 0) 109 0 0 1 ++ C10_ri 0 (CLite.VInt 0) 113 0 0 0;
+   [CLite.VPtr (C10_G + 2) 0; CLite.VInt 7; CLite.VInt 0];
+   [CLite.VPtr (C10_G + 3) 0];
+   CLite.cstr_block line;
+   [CLite.VInt 7; CLite.VInt 7; CLite.VInt 7; CLite.VInt 7];
+   TrRegexRec.rs_cells (C10_G + 5) 0 (repeat (-1)%Z 128) 0 0 0].
+
+Example C10_tr_rec_nonvacuous :
+  regcomp [97; 42; 98]%N <> Ok None /\ (forall p, regcomp [97; 42; 98]%N = Ok (Some p) -> code p = C10_rec_prog) /\
+  TrRegexRec.frame (C10_G + 3) (C10_G + 2) (C10_G + 7) (C10_G + 5) C10_rec_prog 0 [97; 97; 98]%N 200 (C10_rec_mem [97; 97; 98]%Z) /\
+  TrRegexRec.prog_closed C10_rec_prog /\
+  rec st (atom_step 0 [97; 97; 98]%N) mark_step C10_rec_prog 256 0 (0, repeat (-1)%Z 128)
+    = (Found [false; false; true] (3, 0%Z :: 3%Z :: repeat (-1)%Z 126), 0%N) /\
+  (exists m', CLite.callf GenCFuncs.cprog 200 270 GenCFuncs.F_re_rec [CLite.VPtr (C10_G + 3) 0; CLite.VPtr (C10_G + 7) 0] (C10_rec_mem [97; 97; 98]%Z)
+              = CLite.Ok (CLite.VInt 0, m') /\
+     nth_error m' (C10_G + 7) = Some (TrRegexRec.rs_cells (C10_G + 5) 3 (0%Z :: 3%Z :: repeat (-1)%Z 126) 6 0 2) /\
+     length m' = length (C10_rec_mem [97; 97; 98]%Z) + 3) /\
+  (exists m', CLite.callf GenCFuncs.cprog 200 270 GenCFuncs.F_regexec
+                [CLite.VPtr (C10_G + 4) 0; CLite.VPtr (C10_G + 5) 0; CLite.VInt 2; CLite.VPtr (C10_G + 6) 0; CLite.VInt 0] (C10_rec_mem [120; 97; 97; 98; 10]%Z)
+              = CLite.Ok (CLite.VInt 0, m') /\
+     nth_error m' (C10_G + 6) = Some (CLiteTac.tab_block [(1, 4); (-1, -1)]%Z)) /\
+  (exists m', CLite.callf GenCFuncs.cprog 200 270 GenCFuncs.F_regexec
+                [CLite.VPtr (C10_G + 4) 0; CLite.VPtr (C10_G + 5) 0; CLite.VInt 2; CLite.VPtr (C10_G + 6) 0; CLite.VInt 0] (C10_rec_mem [120; 97; 97]%Z)
+              = CLite.Ok (CLite.VInt 1, m') /\
+     nth_error m' (C10_G + 6) = nth_error (C10_rec_mem [120; 97; 97]%Z) (C10_G + 6)) /\
+  CLite.callf GenCFuncs.cprog 200 2 GenCFuncs.F_re_rec [CLite.VPtr (C10_G + 3) 0; CLite.VPtr (C10_G + 7) 0] (C10_rec_mem [97; 97; 98]%Z) = CLite.Err CLite.EFuel /\
+  CLite.callf GenCFuncs.cprog 200 270 GenCFuncs.F_re_rec [CLite.VPtr (C10_G + 3) 0; CLite.VPtr (C10_G + 6) 0] (C10_rec_mem [97; 97; 98]%Z) = CLite.Err CLite.EOob.
+Proof.
+  split; [vm_compute; discriminate|]. split; [intros p H; vm_compute in H; injection H as <-; reflexivity|].
+  split.
+  { split; [|split; [vm_compute; reflexivity|split; [|vm_compute; repeat constructor]]].
+    - eexists. split; [vm_compute; reflexivity|]. split; [vm_compute; reflexivity|]. intros k i Hk.
+      do 7 (destruct k as [|k]; [injection Hk as <-; unfold TrRegexRec.instr_at; cbn [TrRegexRec.ri_code TrRegexAtom.ra_code TrRegexAtom.ra_str];
+                                 repeat split; try (vm_compute; reflexivity); try (vm_compute; intros; discriminate);
+                                 try (exists C10_G; repeat split; try (vm_compute; reflexivity); try (vm_compute; congruence); try (repeat constructor); intros sb E; discriminate);
+                                 try (exists (C10_G + 1); repeat split; try (vm_compute; reflexivity); try (vm_compute; congruence); try (repeat constructor); intros sb E; discriminate)|]).
+      destruct k; discriminate.
+    - intros g blk Hn. unfold C10_rec_mem. rewrite nth_error_app1; [exact Hn|]. apply nth_error_Some. congruence. }
+  split; [intros pc Hpc; do 7 (destruct pc as [|pc]; [vm_compute; repeat constructor|]); vm_compute in Hpc; exfalso; repeat apply le_S_n in Hpc; inversion Hpc|].
+  split; [vm_compute; reflexivity|].
+  split; [eexists; split; [vm_compute; reflexivity|]; split; vm_compute; reflexivity|].
+  split; [eexists; split; [vm_compute; reflexivity|]; vm_compute; reflexivity|].
+  split; [eexists; split; [vm_compute; reflexivity|]; vm_compute; reflexivity|].
+  split; vm_compute; reflexivity.
+Qed.
